@@ -220,6 +220,17 @@ Definition is_loop_label (l : label) : bool :=
 
 Definition nslots (q : params) : nat := length (slots q).
 
+Definition zsum (l : list Z) : Z := fold_right Z.add 0 l.
+
+(* the slice handed to submit number k lies inside its buffer: &mut leader_buf[..leader_size],
+   &mut payload_buf[cursor..cursor + size] with cursor = the sum of the sizes before it,
+   &mut trailer_buf[..trailer_size].  Slicing past the end of a Vec panics before anything is
+   submitted, so a submit (successful or failed) is only a step of the loop when this holds. *)
+Definition slice_in (q : params) (lbuf tbuf buf : list Z) (k : nat) (sz : Z) : bool :=
+  if (k =? 0)%nat then sz <=? zlen lbuf
+  else if (S k =? nslots q)%nat then sz <=? zlen tbuf
+  else zsum (firstn (k - 1) (psizes q)) + sz <=? zlen buf.
+
 Definition set_pos (s : state) (p : lpos) : state :=
   {| st_script := st_script s; st_prm := st_prm s; st_pos := p; st_lbuf := st_lbuf s; st_tbuf := st_tbuf s;
      st_pbo := st_pbo s; st_pending := st_pending s; st_pq := st_pq s; st_cp := st_cp s; st_bq := st_bq s;
@@ -308,7 +319,7 @@ Definition step (fixed : bool) (s : state) (l : label) : option state :=
     | LSubmit buf k =>
       match nth_error (slots q) k with
       | Some sz =>
-        if len =? sz then Some
+        if (len =? sz) && slice_in q (st_lbuf s) (st_tbuf s) buf k sz then Some
           {| st_script := st_script s; st_prm := st_prm s;
              st_pos := (if (S k =? nslots q)%nat then LPoll buf [] else LSubmit buf (S k));
              st_lbuf := st_lbuf s; st_tbuf := st_tbuf s; st_pbo := st_pbo s;
@@ -323,7 +334,9 @@ Definition step (fixed : bool) (s : state) (l : label) : option state :=
   | LSubmitErr code =>
     match st_pos s with
     | LSubmit buf k =>
-      if (k <? nslots q)%nat then
+      match nth_error (slots q) k with
+      | Some sz =>
+      if slice_in q (st_lbuf s) (st_tbuf s) buf k sz then
         let c := usb_class code in
         (* read_leader: only fatal errors are reported; read_payload / read_trailer: always *)
         if (k =? 0)%nat && negb ((c =? C_IO) || (c =? C_DISCONNECTED))
@@ -335,6 +348,8 @@ Definition step (fixed : bool) (s : state) (l : label) : option state :=
              st_cancel := st_cancel s; st_ctl := st_ctl s; st_zombies := st_zombies s;
              st_g := {| g_consumed := g_consumed (st_g s); g_istart := g_istart (st_g s); g_cur := None; g_att := g_att (st_g s); g_hist := g_hist (st_g s); g_fail := g_fail (st_g s); g_done := g_done (st_g s) |} |}
       else None
+      | None => None
+      end
     | _ => None
     end
   | LPollData len =>
